@@ -423,3 +423,35 @@ Proof.
   intros Inv T Off. rewrite (valid_is_filter s pp Inv). apply filter_In. split; [exact Off|].
   unfold keep, rep_active. rewrite T. cbn [negb]. now rewrite andb_false_r.
 Qed.
+
+(* ---- C06 over the WHOLE game: the exact rule evaluated on the complete list of turn-start positions (G ++ Old)
+   gives the same verdict as on the positions since the last capture, so the equivalences above speak about the
+   whole game although the engine forgets its history at captures ---- *)
+Lemma exact_allowed_whole_game s pp G Old b0 nb : MatInv s pp G Old b0 -> (npc (cell nb) <= npc (cell (board s)))%nat ->
+  (exact_allowed (G ++ Old) b0 nb (negb (side s)) <-> exact_allowed G b0 nb (negb (side s))).
+Proof.
+  intros MI LE. unfold exact_allowed.
+  rewrite (forgetting_is_harmless s pp G Old b0 nb (fun x => peqb x (nb, negb (side s))) MI LE (fun x _ H => peqb_peq _ _ H)).
+  reflexivity.
+Qed.
+
+Theorem pass_offered_iff_whole_game s G Old b0 : ReachH s G Old b0 -> NoCollisionAt s G b0 (board s) ->
+  In Pass (valid_actions_no_rep s) ->
+  (In Pass (valid_actions s) <-> exact_allowed (G ++ Old) b0 (board s) (negb (side s))).
+Proof.
+  intros R NC OffN. destruct (reachH_inv s G Old b0 R) as [pp MI].
+  rewrite (exact_allowed_whole_game s pp G Old b0 (board s) MI (le_n _)).
+  exact (pass_offered_iff s pp G b0 (mi_rep _ _ _ _ _ MI) NC OffN).
+Qed.
+
+Theorem fourth_step_offered_iff_whole_game s pp G Old b0 i d : ReachH s G Old b0 -> ph s = PlayPhase pp ->
+  let nb := board (take_action s (Move i d)) in
+  NoCollisionAt s G b0 nb -> In (Move i d) (valid_actions_no_rep s) -> step_of pp = 3 -> trapped pp = false ->
+  (In (Move i d) (valid_actions s) <-> exact_allowed (G ++ Old) b0 nb (negb (side s))).
+Proof.
+  intros R P nb NC OffN S3 T. destruct (reachH_inv s G Old b0 R) as [q MI].
+  pose proof (inv_phase s q (hi_play s q (ri_hash _ _ _ _ (mi_rep _ _ _ _ _ MI)))) as E. rewrite P in E. injection E as <-.
+  pose proof (step_npc s pp i d (hi_play s pp (ri_hash _ _ _ _ (mi_rep _ _ _ _ _ MI))) OffN) as [LE _]. cbv zeta in LE.
+  rewrite (exact_allowed_whole_game s pp G Old b0 nb MI LE).
+  exact (fourth_step_offered_iff s pp G b0 i d (mi_rep _ _ _ _ _ MI) NC OffN S3 T).
+Qed.
